@@ -151,3 +151,26 @@ func TestSelfLength(t *testing.T) {
 		r.GetObject(3)
 	})
 }
+
+// C02 / R2.12: the dimensions of an image XObject come from the file; ToPNG allocated the pixel buffer for them
+// (image.NewGray panics on huge or overflowing dimensions, and a merely large pair asks for gigabytes) before it
+// compared them with the data that is there.
+func TestImageDimensionsAreCheckedBeforeAllocation(t *testing.T) {
+	for _, dims := range [][2]int{{1 << 31, 1 << 31}, {1 << 20, 1 << 20}, {0, 7}, {-3, 5}} {
+		for _, cs := range []string{"DeviceGray", "DeviceRGB", "DeviceCMYK"} {
+			for _, bpc := range []int{1, 4, 8} {
+				img := &reader.PageImage{Width: dims[0], Height: dims[1], BitsPerComponent: bpc, ColorSpace: cs, Data: []byte{1, 2, 3, 4}}
+				func() {
+					defer func() {
+						if r := recover(); r != nil {
+							t.Errorf("%dx%d %s/%d: ToPNG panicked: %v", dims[0], dims[1], cs, bpc, r)
+						}
+					}()
+					if _, err := img.ToPNG(); err == nil {
+						t.Errorf("%dx%d %s/%d: no error for 4 bytes of data", dims[0], dims[1], cs, bpc)
+					}
+				}()
+			}
+		}
+	}
+}
